@@ -255,6 +255,7 @@ func init() {
 				for n := 3; n <= 5; n++ {
 					out = append(out, c15Scope(enum.Eax, 3, n, open, n-2))
 					out = append(out, c15Scope(enum.Ebig, 3, n, open, n-2))
+					out = append(out, c15Scope(enum.EbigOdd, 3, n, open, n-2))
 				}
 				if tier == "thorough" {
 					out = append(out, c15Scope(enum.Eax, 3, 6, open, 4))
